@@ -476,8 +476,11 @@ func bucketToGo(b Bucket, sp Spelling, typedAlg bool) map[any]any {
 		case isInt && lbl == refcose.LCrit:
 			gv = itemToGo(v, plain, false)
 		case isInt && lbl == refcose.LAlg && v.IsInt():
-			a, _ := v.Int64()
+			a, fits := v.Int64()
 			switch {
+			case !fits:
+				// an unsigned value beyond int64: only a Go uint64 can hold it
+				gv = itemToGo(v, plain, false)
 			case typedAlg:
 				gv = cose.Algorithm(a)
 			case sp.T != nil && sp.Values:
